@@ -212,7 +212,18 @@ class Faults(Suite):
                     res = dict(error=type(e).__name__)
                 busy[0] = True
                 shutil.copytree(root, f'snap/final', symlinks=True) if os.path.exists(root) else os.makedirs('snap/final')
-                return dict(res, snaps=snaps)
+                after = sorted(p.name for p in t.path.iterdir()) if t.path.exists() else []
+                # the fault is gone: the same task object, and a new chain in the same process, recover
+                state['run'], state['fault'] = 3, None
+                same = {}
+                if case['fault'] != 'crash':
+                    for tag, task in (('same_object', t), ('same_process', None)):
+                        try:
+                            task = task or the_chain(m, 'data')['c05:victim']
+                            same[tag] = dict(value=describe_result(kind, task.value))
+                        except Exception as e:
+                            same[tag] = dict(error=f'{type(e).__name__}: {e}'[:160])
+                return dict(res, snaps=snaps, after_fault=after, **same)
             b = in_child(faulty)
             if 'child_error' in b:
                 return dict(setup_error=b['child_error'])
@@ -279,6 +290,23 @@ class Faults(Suite):
             return f'harness could not set the scenario up: {obs["setup_error"]}'
         refs = obs['refs']
         complete = [refs[1], refs[2], refs[3]]
+        where0 = f'{case["kind"]}, {"forced recomputation" if case["forced"] else "first computation"}, {case["fault"]}'
+        if case['fault'] != 'crash':
+            out = obs['outcome']
+            if 'error' not in out:
+                return f'{where0}: the faulty computation returned {json.dumps(out.get("value"))[:120]} instead of failing'
+            for tag in ('same_object', 'same_process'):
+                r = out.get(tag, {})
+                if 'error' in r:
+                    return f'{where0}: after the fault is gone, requesting the value again ({tag.replace("_", " ")}) fails: {r["error"]}'
+                if r.get('value') not in complete:
+                    return f'{where0}: after the fault is gone, {tag.replace("_", " ")} yields {json.dumps(r.get("value"))[:160]}, not a complete value'
+            names = out.get('after_fault', [])
+            if case['kind'] == 'dir':
+                if not any(n.endswith('_error') for n in names) or any(n.endswith('_tmp') for n in names):
+                    return f'{where0}: the work directory of the failed run was not set aside ({names})'
+            if case['kind'] == 'continues' and case['fault'] == 'raise' and not any(n.endswith('_tmp') for n in names):
+                return f'{where0}: the work directory of the resumable task was not kept ({names})'
         for r in obs['recoveries']:
             where = f'{case["kind"]}, {"forced recomputation" if case["forced"] else "first computation"}, {case["fault"]}, state {r["label"]}'
             if 'child_error' in r:
